@@ -643,6 +643,15 @@ func (e *Enc) resolveName(sc *Scope, name string) (Val, bool) {
 				switch d := instrs[i].(type) {
 				case *ssa.DebugRef:
 					if id := identName(d); id == name {
+						if al := allocNamed(fn, name, b); al != nil && !d.IsAddr && loadOfAlloc(d.X) == nil && storedToAlloc(d.X, name) == nil {
+							// some mention of an address-taken local (e.g. its initial constant): the
+							// variable's current value is what its cell holds now
+							if _, isConst := d.X.(*ssa.Const); isConst {
+								if _, defined := fr.vals[al]; defined || fr.lazy {
+									return getv(al, true), true
+								}
+							}
+						}
 						if al := storedToAlloc(d.X, name); al != nil && !d.IsAddr {
 							// the value just assigned to an address-taken local: the variable's
 							// current value is what its cell holds now
@@ -1426,6 +1435,20 @@ func storedToAlloc(v ssa.Value, name string) *ssa.Alloc {
 		if st, ok := r.(*ssa.Store); ok && st.Val == v {
 			if al, ok := st.Addr.(*ssa.Alloc); ok && al.Comment == name {
 				return al
+			}
+		}
+	}
+	return nil
+}
+
+// allocNamed finds the cell of an address-taken local called name whose allocation dominates blk.
+func allocNamed(fn *ssa.Function, name string, blk *ssa.BasicBlock) *ssa.Alloc {
+	for _, bb := range fn.Blocks {
+		for _, ins := range bb.Instrs {
+			if al, ok := ins.(*ssa.Alloc); ok && al.Comment == name {
+				if blk == nil || al.Block() == blk || al.Block().Dominates(blk) {
+					return al
+				}
 			}
 		}
 	}
